@@ -11,10 +11,10 @@ package main
 
 import (
 	"fmt"
-	"os"
 	"go/ast"
 	"go/token"
 	"go/types"
+	"os"
 	"sort"
 	"strings"
 )
@@ -418,7 +418,12 @@ func uniqInts(xs []int) []int {
 
 // apiFootprints: for every exported function/method of the root package, its parameters that reach caller memory
 // (position, name, written?) and the descriptions of writes through non-receiver parameters.
-func apiFootprints() (table []string, argWrites []string) {
+var sharedPtr *ptrAnalysis
+
+func newPtrAnalysis() *ptrAnalysis {
+	if sharedPtr != nil {
+		return sharedPtr
+	}
 	imp := sharedImporter
 	a := &ptrAnalysis{imp: imp, decls: map[*types.Func]*ast.FuncDecl{}, mod: map[*types.Func]map[int][]string{}, ret: map[*types.Func][]int{}, state: map[*types.Func]int{}}
 	for _, files := range imp.files {
@@ -432,6 +437,46 @@ func apiFootprints() (table []string, argWrites []string) {
 			}
 		}
 	}
+	sharedPtr = a
+	return a
+}
+
+// writesParam: may the call x write the memory reachable through its argument number argIdx?
+func (a *ptrAnalysis) writesArg(x *ast.CallExpr, argIdx int) (bool, string) {
+	fn := calleeFunc(a.imp.info, x)
+	if fn == nil || !strings.HasPrefix(pkgPath(fn), modPath) {
+		name := calleeName(x)
+		if wr, ok := ptrKnownWriters[name]; ok {
+			for _, i := range wr {
+				if i == argIdx {
+					return true, name
+				}
+			}
+			return false, ""
+		}
+		if ptrKnownReaders[name] {
+			return false, ""
+		}
+		return true, "unknown callee " + name
+	}
+	mod := a.analyse(fn)
+	sig := fn.Type().(*types.Signature)
+	pi := argIdx
+	if sig.Variadic() && pi >= sig.Params().Len()-1 {
+		pi = sig.Params().Len() - 1
+	}
+	if sig.Recv() != nil {
+		pi++
+	}
+	if len(mod[pi]) > 0 {
+		return true, mod[pi][0]
+	}
+	return false, ""
+}
+
+func apiFootprints() (table []string, argWrites []string) {
+
+	a := newPtrAnalysis()
 	var fns []*types.Func
 	for fn := range a.decls {
 		if fn.Pkg().Path() != modPath || !fn.Exported() {
